@@ -488,3 +488,33 @@ Proof. exact fast_retx_nonvacuous. Qed.
 
 Print Assumptions c06_backoff_cap_nonvacuous.
 Print Assumptions c06_fast_retx_nonvacuous.
+
+(* ---- session 6: the remaining trace predicates (Conn/C06_Step2.v, Conn/C06_Step2b.v) ---- *)
+From Utp Require Import Conn.C06_Step2 Conn.C06_Pred3 Conn.C06_Step2b.
+
+(* the phase IgnoringUntilRecoveryPoint rp ends with the poll that takes an acknowledgement reaching rp:
+   every trace of the model from vsock_new, no hypothesis on the configuration *)
+Theorem c06_rp_exit_ok_trace : forall CC (cci : cc_iface CC) cfg mk c (s0 : vsock CC) ops,
+  vsock_new cci mk c = Some s0 -> c06_rp_exit_ok cfg (ftrace cci s0 ops) = true.
+Proof. exact (@C06_Step2.c06_rp_exit_ok_trace). Qed.
+
+(* one poll: Established, Ignoring rp, a message reaching rp queued, retransmission timer not expired:
+   Pending with the transport writable leaves the phase (or the connection left Established) *)
+Theorem c06_poll_rp_exit : forall CC (cci : cc_iface CC) rp (s : vsock CC) sc s',
+  ti s -> v_state s = Established -> ign (v_recovery s) = Some rp ->
+  Exists (fun m => reaches_rp rp (m_hdr m) = true) (v_inbox s) ->
+  timer_expired (v_t_retransmit s) (v_env_now s) = false ->
+  poll cci (VSockRec.set_sends s sc) = (s', PollPending) ->
+  v_transport_pending s' = true \/ (v_state s' = Established -> ign (v_recovery s') = None).
+Proof. exact (@C06_Step2.poll_rp_exit). Qed.
+
+Theorem c06_rp_exit_nonvacuous :
+  exists w cfg ops,
+    vconfig_ok cfg = true /\ Forall op_msg_ok ops /\
+    existsb rp_exit_seen (wtrace w cfg ops) = true /\
+    c06_rp_exit_ok cfg (wtrace w cfg ops) = true.
+Proof. exact rp_exit_nonvacuous. Qed.
+
+Print Assumptions c06_rp_exit_ok_trace.
+Print Assumptions c06_poll_rp_exit.
+Print Assumptions c06_rp_exit_nonvacuous.
